@@ -9,6 +9,8 @@ import json
 import os
 import shutil
 import subprocess
+import os as _os
+_os.environ.setdefault('VERIF_ITEM_S', '120')     # seeded trees may make single work items very slow
 import sys
 
 wt, prop, name = sys.argv[1:4]
